@@ -61,14 +61,30 @@ class Gen:
                 if n == 0:
                     self.feat["each_empty"] += 1
             elif r < 0.55:
-                n = rng.choice([0, 1, 2, 3, 8, 33, 64])
-                x = self.fresh("CT")
-                e = rng.choice([str(n), f"{n} + 0", f"${n:x}"])
-                src += [f"@each {x}, {{ @count {e} }}", f"@db {x}", "@endeach"]
-                exp += [f"@db {i}" for i in range(n)]
-                self.feat["count"] += 1
-                if n == 0:
-                    self.feat["count0"] += 1
+                # one or several generator directives side by side in one list (nothing between two
+                # @count, a literal before / after), consumed by @each or by @string
+                segs, items = [], []
+                for _ in range(rng.choice([1, 1, 2, 2, 3])):
+                    if rng.random() < 0.75:
+                        n = rng.choice([0, 1, 2, 3, 8, 33, 64])
+                        segs.append("@count " + rng.choice([str(n), f"{n} + 0", f"${n:x}"]))
+                        items += [str(i) for i in range(n)]
+                        self.feat["count"] += 1
+                        if n == 0:
+                            self.feat["count0"] += 1
+                    else:
+                        lit = f"${rng.randint(0, 255):x}"
+                        segs.append(lit)
+                        items.append(lit)
+                if len([x for x in segs if x.startswith("@count")]) > 1:
+                    self.feat["count_adjacent"] = self.feat.get("count_adjacent", 0) + 1
+                if rng.random() < 0.7:
+                    x = self.fresh("CT")
+                    src += [f"@each {x}, {{ {' '.join(segs)} }}", f"@db {x}", "@endeach"]
+                    exp += [f"@db {i}" for i in items]
+                else:
+                    src.append(f"@db @string {{ {' '.join(segs)} \"x\" }}")
+                    exp.append('@db "' + "".join(f"{int(i[1:], 16) if i.startswith('$') else int(i):x}" for i in items) + 'x"')
             elif r < 0.68:
                 v = rng.choice(VALS)
                 u = v & 0xFFFFFFFF
